@@ -394,7 +394,7 @@ spec("SoPlex_getRowVectorReal", [Call("getRowVectorReal", ai=["i"])], dsv=True, 
      mutants=[mut("value_of_first", "coefs[j] = row.value(j);", "coefs[j] = row.value(0);"),
               anchored("writes_one_more", "SoPlex_getRowVectorReal", "j < *nnonzeros;", "j <= *nnonzeros;"),
               anchored("index_into_first", "SoPlex_getRowVectorReal", "indices[j] = row.index(j);", "indices[0] = row.index(j);")])
-spec("SoPlex_getRowVectorRational", [Call("getRowRational", ai=["i"])], floor=300, tier="thorough",
+spec("SoPlex_getRowVectorRational", [Call("getRowRational", ai=["i"])], floor=300, tier="quick",
      note="EXPECTED TO FAIL on the unchanged tree: `SVectorRational row; row = lprow.rowVector();` assigns into a default-constructed "
           "SVectorBase (no memory): assert(max() >= sv.size()) fires / NULL write for every non-empty row (svectorbase.h operator=)",
      req=[GKS, "__CPROVER_is_fresh(nnonzeros, sizeof(int))",
@@ -413,14 +413,14 @@ spec("SoPlex_getRowVectorRational", [Call("getRowRational", ai=["i"])], floor=30
 # G. string result: the returned buffer holds the text of objValueRational().str() including its terminator
 STR_WF = "0 <= g_str_len && g_str_len <= CIF_STR && g_str_val[g_str_len] == 0 && " + " && ".join(
     "(g_str_len <= %d || g_str_val[%d] != 0)" % (j, j) for j in range(6))
-spec("SoPlex_objValueRationalString", [Call("objValueRational")], floor=150, tier="thorough", unwind=8,
+spec("SoPlex_objValueRationalString", [Call("objValueRational")], floor=150, tier="quick", unwind=8,
      note="EXPECTED TO FAIL on the unchanged tree: stringlength is computed from the still EMPTY objstring (strlen(\"\") + 1 == 1) "
           "before objstring is assigned, so a 1-byte buffer holding the first character without terminator is returned",
      req=[STR_WF, "0 <= g_k && g_k <= g_str_len"],
      assigns=["g_str_num", "g_str_den"],
      ens=["g_str_num == g_ret_num[0] && g_str_den == g_ret_den[0]",
           "__CPROVER_return_value[g_k] == g_str_val[g_k]"],
-     mutants=[mut("terminator_not_counted", "stringlength = strlen(objstring.c_str()) + 1;\n   objstring", "stringlength = strlen(objstring.c_str());\n   objstring")])
+     mutants=[mut("terminator_not_counted", "stringlength = strlen(objstring.c_str()) + 1;\n   value = new", "stringlength = strlen(objstring.c_str());\n   value = new"), mut("length_before_assignment", "objstring = so->objValueRational().str();\n   stringlength = strlen(objstring.c_str()) + 1;", "stringlength = strlen(objstring.c_str()) + 1;\n   objstring = so->objValueRational().str();")])
 
 # not covered (see props/C20.json): SoPlex_getPrimalRationalString, SoPlex_objValueRationalString
 NOT_COVERED = ["SoPlex_getPrimalRationalString"]
